@@ -185,10 +185,13 @@ fn forged_fields(api: usize, v: usize, now_micros: u64) -> Vec<(&'static str, B)
                 10 => mitem(&k.sk, &k.pk, 4, &[0xff, 0x01, 0x80, 0xf0, 0x90, 0x80], salt),
                 // ... and the same key, seq and signature replayed over a value in which invalid
                 // UTF-8 bytes were swapped for other invalid ones
+                // (the signature is the one the LIBRARY makes for the original value - what a
+                // publisher using this library puts on the network - and the swapped value reads
+                // the same as the original once invalid sequences are replaced by U+FFFD)
                 _ => {
-                    let mut f = mitem(&k.sk, &k.pk, 4, &[0xff, 0x01, 0x80, 0xf0, 0x90, 0x80], salt);
-                    f[2] = ("v", B::bytes([0xfe, 0x01, 0x81, 0xf0, 0x90, 0x41]));
-                    f
+                    let orig: [u8; 6] = [0xff, 0x01, 0x80, 0xf0, 0x90, 0x80];
+                    let published = MutableItem::new(&k.sk, &orig, 4, salt);
+                    vec![("k", B::bytes(k.pk)), ("seq", B::Int(4)), ("v", B::bytes([0xfe, 0x01, 0x81, 0xf0, 0x90, 0x80])), ("sig", B::bytes(published.signature()))]
                 }
             }
         }
